@@ -334,6 +334,17 @@ impl Property for CpuProp {
 
     fn gen(&self, rng: &mut Rng, _tier: Tier, idx: u64) -> Scenario {
         let mut sc = Scenario::new();
+        if self.0 == Which::C02 && idx % 40 == 7 {
+            // machine level: the real Emulator in lock-step with RefZ80 on the reference machine; sequencing
+            // -critical instructions (EI, DI, prefix chains, HALT) are placed so that they end inside the
+            // frame interrupt pulse, with host actions that must not disturb the CPU (rejected snapshot
+            // loads, snapshot saves, idempotent pokes) right behind them or in the middle of a prefix chain
+            sc.set("kind", 2);
+            sc.set("m128", rng.bool() as i64);
+            sc.set("seed", (rng.next() >> 2) as i64);
+            sc.set("steps", 4000);
+            return sc;
+        }
         let sweep = self.0 != Which::C02 && idx % 2 == 1;
         if sweep {
             sc.set("kind", 1);
@@ -386,6 +397,9 @@ impl Property for CpuProp {
     fn exec(&self, sc: &Scenario, ctx: &mut RunCtx) -> Result<(), Fail> {
         let kind = sc.get("kind");
         let r = match kind {
+            2 => {
+                return crate::lockstep::run(sc.get("m128") != 0, sc.get("seed") as u64, sc.get("steps").clamp(1, 50_000) as usize, crate::lockstep::Judge::Sequencing, "C02", ctx);
+            }
             9 => {
                 if !sc.ops.iter().any(|o| o.k == "regs") {
                     return Ok(());
